@@ -149,6 +149,48 @@ CLAIMED = {
              "lexer. Oracle: decode(encode b) = b, ast.literal_eval of the text = b, exactly one STRING token.",
         design="§4 C12",
     ),
+    "C09": dict(
+        text="Machine-checked refinement (Lean 4): for every layout stub++nonce(4)++size(4)++enc, every nonce, both file kinds and every history "
+             "of seek(SET/CUR/END)/read(n)/tell whose seeks land at logical positions >= 0 (incl. beyond EOF), the model of XorEncodedFile produces "
+             "exactly the outputs of a plain file over rollDecode(nonce,enc) and tell advances by the bytes returned (read_refines for all n, "
+             "history_refines by induction over the op list; read_nonce proved correct at every alignment incl. the 0-3 splice). Detection is proved "
+             "to yield the true offset through the size relation, to try candidates in Counter.most_common order, to return the first that passes "
+             "the MZ check and to raise ValueError otherwise; the MZ check is modelled and proved to pass on PE headers and never to raise. The "
+             "pre-fix read_nonce is proved to violate the refinement.",
+        note="Seeks to negative logical positions are excluded (BytesIO and OS files disagree there). iter_find_needle is a parameter of the "
+             "detection theorems, cross-checked with the C15 model in the driver; PyFile, Counter.most_common and cstruct reads are modelled, not "
+             "verified. Tied to the code by ~32k (quick) / ~356k (thorough) in-process comparisons on BytesIO and on buffered and unbuffered temp "
+             "files, incl. exhaustive (seek p, read n, tell, read m, tell) for len <= 9 (<= 13 thorough); seek's raw return value is correspondence-only.",
+        design="§4 C09",
+    ),
+    "C17": dict(
+        text="Lean proof: an unmasked Guardrails configuration is reported only if payload_checksum+1 equals the stored checksum (only_if_checksum, "
+             "unconditional, also end to end through the from_file fallback); the marker scan never raises and reports exactly the offsets "
+             "satisfying the marker relation with room for a configuration in front (scan_reports_iff); guard unmasking round-trips; a protected "
+             "area at any offset is found with exactly its offsets, settings and masked areas (marker_found); otherwise the guard metadata alone is "
+             "reported (no_match_metadata_only); recovery of (config, key, settings, offsets) is proved under explicit dominance / no-collision "
+             "hypotheses (recover_partial, key_is_candidate, zero_padding_dominates) and periodic keys are recovered up to their root.",
+        note="Recovery is partial by nature: the full statement is refuted in Lean (recover_full_fails: periodic keys; the weak additive checksum "
+             "admits same-length collisions, demonstrated). The XorEncoded view, PE helpers and the ordinary extraction path are parameters. cstruct, "
+             "BufferedReader.peek and Counter.most_common are modelled and exercised by dedicated streams; constants come from tools/gen/guardrails.py. "
+             "The compiled driver uses csimp-proved fast versions of xor and the Counter insert. Correspondence over all key lengths 2..256 "
+             "(thorough), all 15 option subsets, positions, corruptions, plus a builder validated against the real protected sample.",
+        design="§4 C17",
+    ),
+    "C18": dict(
+        text="Lean-proved for all stages P ++ I whose image has a signed 0 < e_lfanew < maxrange and machine x86/x64, with |P| < maxrange and no "
+             "earlier candidate: find_mz_offset = |P|; architecture, compile and export stamp (first containing section, else None), magic MZ/PE, "
+             "prepend and append equal the image's fields at their absolute offsets, independent of P, the initial file position and the file kind "
+             "(mz_found and its parts). Version: parsing any string of the documented shape returns its fields (version_parse_format); the "
+             "export-stamp / max-enum precedence is as stated (version_precedence, config_version). Both tables are monotone in (tuple, date), of the "
+             "documented shape, and their texts parse to what the real BeaconVersion computes - rechecked by kernel evaluation on the regenerated "
+             "tables at every run.",
+        note="Stage theorems cover start_offset = 0 (what BeaconConfig.from_file uses). cstruct struct reads, CPython re (this regex), _strptime "
+             "for '%b %d, %Y', datetime validity, int(), bytes.find/rstrip and file objects are modelled and exercised, not verified; struct layouts "
+             "and both tables are regenerated from the imported package (tools/gen/pestruct.py, version.py). Correspondence ~20k quick / ~136k thorough "
+             "on BytesIO and real files incl. truncations at every struct boundary, all table keys +-1, every key pair.",
+        design="§4 C18",
+    ),
 }
 
 REASON_PENDING = "not claimed yet: model/theorems/correspondence for this property are not built in this revision (see DESIGN.md §7 build order)"
